@@ -33,6 +33,72 @@ import (
 
 var macCtr atomic.Int64
 
+// accessor is one function of the lock-set table that can be called from outside the library; the table
+// (accessors_gen.go) is regenerated from the library sources by harness/cmd/c14x on every run.
+type accessor struct {
+	fn   string
+	locs []string
+	call func(n int, s string)
+}
+
+var accessors []accessor
+
+var fresh atomic.Int64
+
+// accessorScenario hammers the accessor functions of one shared location: each function is called with arguments
+// never used before in the process (a miss: the cache is written) and with fixed arguments (a hit: it is only
+// read), so that inserts overlap reads. only: restrict to these functions (a conflict of the lock-set table).
+func accessorScenario(name, loc string, only []string, boost int) (scenario, bool) {
+	var accs []accessor
+	for _, a := range accessors {
+		for _, l := range a.locs {
+			if l != loc {
+				continue
+			}
+			keep := len(only) == 0
+			for _, f := range only {
+				keep = keep || f == a.fn
+			}
+			if keep {
+				accs = append(accs, a)
+			}
+		}
+	}
+	if len(accs) == 0 {
+		return scenario{}, false
+	}
+	return scenario{name: name, rounds: 2, verdictOnly: true, boost: boost, build: func() []func() string {
+		var ops []func() string
+		for _, a := range accs {
+			a := a
+			// numbers stay small (they may become regex repeat counts); an argument the function rejects by
+			// panicking is not this property's matter
+			call := func(n int, s string) { _ = hx.Safely(func() { a.call(n, s) }) }
+			ops = append(ops,
+				func() string { k := fresh.Add(1); call(int(3+k%997), fmt.Sprintf("k%d", k)); return "miss" },
+				func() string { call(1, ":"); return "hit" },
+				func() string { k := fresh.Add(1); call(int(3+k%997), fmt.Sprintf("q%d-", k)); return "miss" },
+				func() string { call(2, "-"); return "hit" })
+		}
+		return ops
+	}}, true
+}
+
+// sharedLocs lists the locations that have callable accessors, in a fixed order.
+func sharedLocs() []string {
+	seen := map[string]bool{}
+	var out []string
+	for _, a := range accessors {
+		for _, l := range a.locs {
+			if !seen[l] {
+				seen[l] = true
+				out = append(out, l)
+			}
+		}
+	}
+	return out
+}
+
 type scenario struct {
 	name string
 	// build returns the operations over freshly built shared state; each op renders its result canonically
@@ -40,6 +106,7 @@ type scenario struct {
 	// rounds: how many times the shared state is rebuilt (lazily-initialised state races only on first use)
 	rounds      int
 	verdictOnly bool
+	boost       int // iterations multiplied by this (cheap operations)
 }
 
 func verdict(s any, in any) string {
@@ -53,7 +120,28 @@ func verdict(s any, in any) string {
 	return "ok:" + storex.Canon(out)
 }
 
+// targets: conflicts of the regenerated lock-set table, as "<loc>=<fn>+<fn>" (from the Lean driver via vlib/c14.py).
+var targets []string
+
 func scenarios() []scenario {
+	out := baseScenarios()
+	// one scenario per shared location with callable accessors (package-level caches, config, locale table)
+	for _, loc := range sharedLocs() {
+		if sc, ok := accessorScenario("cache:"+loc, loc, nil, 20); ok {
+			out = append(out, sc)
+		}
+	}
+	// one per conflict of the lock-set table: only the conflicting functions, ten times as long
+	for _, t := range targets {
+		loc, fns, _ := strings.Cut(t, "=")
+		if sc, ok := accessorScenario("target:"+loc, loc, strings.Split(fns, "+"), 200); ok {
+			out = append(out, sc)
+		}
+	}
+	return out
+}
+
+func baseScenarios() []scenario {
 	return []scenario{
 		{name: "parse-shared", rounds: 3, build: func() []func() string {
 			s := types.String().Min(3).Max(20)
@@ -189,6 +277,9 @@ func scenarios() []scenario {
 
 func runScenario(sc scenario, g, iters int) int {
 	mismatches := 0
+	if sc.boost > 0 {
+		iters *= sc.boost
+	}
 	var mu sync.Mutex
 	for round := 0; round < sc.rounds; round++ {
 		ops := sc.build()
@@ -224,12 +315,18 @@ func runScenario(sc scenario, g, iters int) int {
 	return mismatches
 }
 
+func fileName(s string) string { return strings.NewReplacer(":", "_", "/", "_").Replace(s) }
+
 func main() {
 	scn := flag.String("scenario", "", "run one scenario (child mode)")
 	seed := flag.Uint64("seed", 1, "")
 	tier := flag.String("tier", "quick", "")
 	outDir := flag.String("out", "", "")
+	tg := flag.String("targets", "", "conflicts of the lock-set table: <loc>=<fn>+<fn>,…")
 	flag.Parse()
+	if *tg != "" {
+		targets = strings.Split(*tg, ",")
+	}
 	_ = seed
 	g, iters := 8, 60
 	if *tier == "thorough" {
@@ -253,7 +350,7 @@ func main() {
 	self, _ := os.Executable()
 	for _, sc := range scenarios() {
 		ctx, cancel := context.WithTimeout(context.Background(), 240*time.Second)
-		cmd := exec.CommandContext(ctx, self, "-scenario", sc.name, "-tier", *tier, "-out", *outDir)
+		cmd := exec.CommandContext(ctx, self, "-scenario", sc.name, "-tier", *tier, "-out", *outDir, "-targets", *tg)
 		cmd.Env = append(os.Environ(), "GORACE=halt_on_error=0 exitcode=66")
 		var so, se bytes.Buffer
 		cmd.Stdout, cmd.Stderr = &so, &se
@@ -276,11 +373,11 @@ func main() {
 				}
 			}
 			obs = "RACE " + fr
-			os.WriteFile(*outDir+"/race-"+sc.name+".txt", se.Bytes(), 0o644)
+			os.WriteFile(*outDir+"/race-"+fileName(sc.name)+".txt", se.Bytes(), 0o644)
 		case !strings.Contains(so.String(), "RESULT mismatches=0"):
 			if runErr != nil && !strings.Contains(so.String(), "RESULT") {
 				obs = "crash"
-				os.WriteFile(*outDir+"/crash-"+sc.name+".txt", se.Bytes(), 0o644)
+				os.WriteFile(*outDir+"/crash-"+fileName(sc.name)+".txt", se.Bytes(), 0o644)
 			} else {
 				obs = "mismatch " + strings.TrimSpace(strings.TrimPrefix(so.String(), "RESULT "))
 			}
